@@ -421,6 +421,7 @@ func genDkgLib(rng *hx.Rng, tier string, w *hx.Writer, prop string) error {
 			outs := s.runFlow(dkgHooks{deal: func(i, j int) (*dkg.Deal, *edealDesc, bool) { return nil, nil, false }})
 			s.put(w, prop, outs, "deals-redelivered")
 		}
+		genC04Net(rng, tier, w)
 		return nil
 	}
 	// ---- C05: one Byzantine member, deviations from a catalogue
